@@ -319,6 +319,22 @@ impl<A: HApi> Sut for HSut<A> {
     fn alt_skew(&self) -> usize {
         A::val().1.max(4) % 16
     }
+    fn preflight(&self) -> Vec<(Finding, Vec<String>)> {
+        let (vs, va) = A::val();
+        let voff = (8 + va - 1) / va * va;
+        let al = va.max(4);
+        let rec = (voff + vs + al - 1) / al * al;
+        let mut f = vec![];
+        for c in [0usize, 1, 2, 7, 255, 4096] {
+            let got = guarded(|| A::data_len(c));
+            let want = 16 + c * rec;
+            if got.as_ref().ok() != Some(&want) {
+                f.push((Finding { property: "C10", what: format!("data_len({c}) is {:?} but header + records is {want} ({})", got.ok(), A::label()) }, vec![format!("dlen {c}")]));
+                break;
+            }
+        }
+        f
+    }
     fn sessionable(&self, op: &Op) -> bool {
         !matches!(op.name, "open" | "fill" | "iter" | "dlen")
     }
@@ -337,6 +353,19 @@ impl<A: HApi> Sut for HSut<A> {
         if out.panic.is_some() {
             if op.name != "init" {
                 f.push(Finding { property: prop, what: format!("`{}` panicked instead of answering: {}", op.text(), out.panic.clone().unwrap()) });
+            }
+            return f;
+        }
+        if op.name == "dlen" {
+            // data_len(c) is exactly header plus c records; record size from the layout rule
+            // (repr(C): two u32 registers, the value at its alignment), not from data_len itself
+            let (vs, va) = A::val();
+            let voff = (8 + va - 1) / va * va;
+            let al = va.max(4);
+            let rec = (voff + vs + al - 1) / al * al;
+            let want = (16u128 + op.args[0] as u128 * rec as u128).to_string();
+            if want != out.result {
+                f.push(Finding { property: "C10", what: format!("data_len({}) is {} but header + records is {}", op.args[0], out.result, want) });
             }
             return f;
         }
@@ -396,18 +425,7 @@ impl<A: HApi> Sut for HSut<A> {
         let mut exp = m.clone();
         let x = Self::key_of(op.args.first().copied().unwrap_or(0));
         let expected: Option<String> = match op.name {
-            "dlen" => {
-                // record size from the layout rule (repr(C): two u32 registers, the value at its alignment)
-                let (vs, va) = A::val();
-                let voff = (8 + va - 1) / va * va;
-                let al = va.max(4);
-                let rec = (voff + vs + al - 1) / al * al;
-                let want = (16u128 + op.args[0] as u128 * rec as u128).to_string();
-                if want != out.result {
-                    f.push(Finding { property: "C10", what: format!("data_len({}) is {} but header + records is {}", op.args[0], out.result, want) });
-                }
-                None
-            }
+            "dlen" => None,
             "ins" => Some((msize < mcap && exp.insert(x)).to_string()),
             "rem" => Some(exp.remove(&x).to_string()),
             "has" | "rhas" => Some(m.contains(&x).to_string()),
